@@ -91,6 +91,14 @@ def build(prog):
     for l in prog.get('lights', []):
         k = l['kind']
         color = tuple(l['color'])
+        if l.get('form') == 'list':
+            color = list(l['color'])
+        elif l.get('form') == 'nparray':
+            color = numpy.array(l['color'], dtype=numpy.float64)
+        elif l.get('form') == 'np64':
+            color = tuple(numpy.float64(v) for v in l['color'])
+        if l.get('form') in ('np64', 'nparray') and 'params' in l:
+            l = dict(l, params=dict((kk, numpy.float64(v)) for kk, v in l['params'].items()))
         if k == 'ambient':
             o = light.AmbientLight(l['id'], color)
         elif k == 'directional':
@@ -103,6 +111,9 @@ def build(prog):
         lights.append(o)
     cameras = []
     for c in prog.get('cameras', []):
+        if c.get('form') == 'np64':
+            c = dict(c, znear=numpy.float64(c['znear']), zfar=numpy.float64(c['zfar']),
+                     params=dict((kk, numpy.float64(v)) for kk, v in c.get('params', {}).items()))
         if c['kind'] == 'perspective':
             o = camera.PerspectiveCamera(c['id'], c['znear'], c['zfar'], **c.get('params', {}))
         else:
@@ -113,6 +124,18 @@ def build(prog):
 
     def transform(t):
         k, p = t['kind'], t['params']
+        form = t.get('form', 'py')
+        if k in ('translate', 'rotate', 'scale'):
+            # the Python forms a caller's numbers come in: floats, ints, numpy scalars (elements
+            # of arrays, results of numpy functions)
+            if form == 'np64':
+                p = [numpy.float64(v) for v in p]
+            elif form == 'np32':
+                p = [numpy.float32(v) for v in p]
+            elif form == 'nparray':
+                p = list(numpy.array(p, dtype=numpy.float64))
+            elif form == 'int' and all(float(v).is_integer() for v in p):
+                p = [int(v) for v in p]
         if k == 'translate':
             return scene.TranslateTransform(*p)
         if k == 'rotate':
@@ -241,17 +264,57 @@ def write(col):
 
 
 def apply_edits(col, ops):
-    """in-place numpy edits of the live model between two writes (the arrays a user holds:
-    source.data and the primitive's bound views of it)"""
+    """edits of the live model between two writes: in-place numpy edits of the arrays a user
+    holds (source.data and the primitive's bound views of it) and plain attribute edits"""
     import numpy
+    from collada import scene
     for op in ops:
+        k = op['op']
+        if k == 'scene_none':
+            col.scene = None
+            continue
+        if k == 'scene_set':
+            if len(col.scenes):
+                col.scene = col.scenes[op['i'] % len(col.scenes)]
+            continue
+        if k == 'asset_title':
+            col.assetInfo.title = op['v']
+            continue
+        if k == 'light_color':
+            if len(col.lights):
+                col.lights[op['i'] % len(col.lights)].color = tuple(op['v'])
+            continue
+        if k == 'camera_znear':
+            if len(col.cameras):
+                col.cameras[op['i'] % len(col.cameras)].znear = op['v']
+            continue
+        if k == 'effect_float':
+            if len(col.effects):
+                setattr(col.effects[op['i'] % len(col.effects)], op['prop'], op['v'])
+            continue
+        if k == 'material_name':
+            if len(col.materials):
+                col.materials[op['i'] % len(col.materials)].name = op['v']
+            continue
+        if k == 'node_name' or k == 'node_transform':
+            tops = [n for sc in col.scenes for n in sc.nodes if isinstance(n, scene.Node)] + \
+                   [n for n in col.nodes if isinstance(n, scene.Node)]
+            if tops:
+                n = tops[op['i'] % len(tops)]
+                if k == 'node_name':
+                    n.name = op['v']
+                else:
+                    n.transforms.insert(op['pos'] % (len(n.transforms) + 1), scene.TranslateTransform(*op['v']))
+            continue
         geoms = list(col.geometries)
         if not geoms:
-            return
+            continue
         g = geoms[op['geom'] % len(geoms)]
+        if k == 'double_sided':
+            g.double_sided = not g.double_sided
+            continue
         srcs = sorted((s for s in {id(x): x for x in g.sourceById.values() if hasattr(x, 'components')}.values()),
                       key=lambda x: str(x.id))
-        k = op['op']
         if k in ('scale', 'set', 'fill', 'add'):
             if not srcs:
                 continue
